@@ -396,8 +396,11 @@ func genWarrior(r *rand.Rand, m int, hostile bool) wdata {
 		code = code[:m]
 	}
 	// sprinkle a mutation
-	if r.Intn(3) == 0 {
+	if len(code) > 0 && r.Intn(3) == 0 {
 		code[r.Intn(len(code))] = genIns(r, m)
+	}
+	if len(code) == 0 {
+		return wdata{}
 	}
 	return wdata{code: code, start: r.Intn(len(code))}
 }
